@@ -646,3 +646,46 @@ func init() {
 		return src, out, ok, err
 	}
 }
+
+// C06: Start returns while the goroutine it started has not shut the handler
+// down yet. The schedule behind the failed postcondition: a handler whose
+// Shutdown takes a moment (the real mapreduce flush blocks while the global
+// group is busy); the session ends; Start returns first.
+func init() {
+	drv := func(P *Program, v *ObligResult) (string, string, bool, error) {
+		fn := fnOfObligation(P, v.Name)
+		g := &goGen{P: P, model: v.Model, pkg: fn.Pkg.Pkg, imports: map[string]bool{"testing": true, "fmt": true, "time": true, "context": true, "sync/atomic": true,
+			modPath + "/internal/clients/handlers": true, modPath + "/internal/mapr": true}}
+		body := `query, err := mapr.NewQuery("select count($line) from STATS group by $hostname")
+		if err != nil {
+			t.Skip(err)
+		}
+		h := &govcSlowFlush{MaprHandler: handlers.NewMaprHandler("srv1", query, mapr.NewGlobalGroupSet())}
+		conn := NewServerless("DTAIL-HEALTH", h, nil)
+		ctx, cancel := context.WithCancel(context.Background())
+		go func() {
+			time.Sleep(200 * time.Millisecond)
+			cancel() // the session ends
+		}()
+		conn.Start(ctx, cancel, make(chan struct{}, 1), make(chan struct{}, 1))
+		if atomic.LoadInt32(&h.flushed) == 0 {
+			panic("connector.Start returned before the handler's Shutdown (the flush of the last partial mapreduce result) had finished: the caller reports the final result without it")
+		}`
+		src := g.testFile(fn.Pkg.Pkg, body) + `
+type govcSlowFlush struct {
+	*handlers.MaprHandler
+	flushed int32
+}
+
+func (s *govcSlowFlush) Shutdown() {
+	time.Sleep(300 * time.Millisecond)
+	s.MaprHandler.Shutdown()
+	atomic.StoreInt32(&s.flushed, 1)
+}
+`
+		out, ok, err := runOverlayTest(P, fn.Pkg.Pkg, src)
+		return src, out, ok, err
+	}
+	specialReplays["clients/connectors.(*Serverless).Start#post:handler-shut-down-before-returning"] = drv
+	specialReplays["clients/connectors.(*ServerConnection).Start#post:handler-shut-down-before-returning"] = drv
+}
